@@ -14,7 +14,7 @@ pub fn run(ctx: &mut Ctx) {
     let part = ctx.part.clone();
     if part.is_empty() || part == "sizes" { sizes(ctx); }
     if part.is_empty() || part == "cycles" { cycles(ctx); }
-    if part.is_empty() || part == "refused" { refused(ctx); }
+    if part.is_empty() || part == "refused" { refused(ctx); sealed(ctx); }
 }
 
 // Total number of bytes of address space mapped from `file`, and the number of mapping lines.
@@ -367,3 +367,66 @@ fn refused(ctx: &mut Ctx) {
     ctx.case(hash64(&[7]), true);
     ctx.sample(|| "refused: child process with RLIMIT_AS 512 MiB / 1 GiB / 2 GiB maps a 4 GiB sparse file: must be an error, never Ok with an invalid pointer".to_string());
 }
+
+// Files for which the OS refuses a shared writable mapping although they open read-write: memory files sealed against
+// writing, reached through /proc/self/fd. A mutable map must be refused with an error - or, if one is returned, what is
+// written through it must be in the file afterwards (a private copy silently loses the writes). Read-only maps of the
+// same files must be valid and equal to the content.
+#[cfg(not(miri))]
+fn sealed(ctx: &mut Ctx) {
+    if !ctx.mine(1) || !ctx.begin_case() { return; }
+    let variants: [(&str, libc::c_int); 4] = [("none", 0), ("write", libc::F_SEAL_WRITE), ("future_write", 0x0010 /* F_SEAL_FUTURE_WRITE */), ("write+shrink+grow", libc::F_SEAL_WRITE | libc::F_SEAL_SHRINK | libc::F_SEAL_GROW)];
+    for (k, &(label, seals)) in variants.iter().enumerate() {
+        for &size in &[8usize, 4096, 3 * 4096 + 64] {
+            let content = file_content(size, 0x5EA1 + k as u64);
+            let fd = unsafe { libc::memfd_create(b"vmon-c18-sealed\0".as_ptr() as *const libc::c_char, libc::MFD_ALLOW_SEALING) };
+            if fd < 0 { ctx.inconclusive("memfd_create failed".to_string()); return; }
+            let written = unsafe { libc::write(fd, content.as_ptr() as *const libc::c_void, size) };
+            if written != size as isize { ctx.inconclusive("short write to a memory file".to_string()); unsafe { libc::close(fd); } continue; }
+            if seals != 0 && unsafe { libc::fcntl(fd, libc::F_ADD_SEALS, seals) } != 0 {
+                ctx.count("sealed.seal_not_supported", 1);
+                unsafe { libc::close(fd); }
+                continue;
+            }
+            let path = format!("/proc/self/fd/{}", fd);
+            let read_back = |fd: libc::c_int| -> Vec<u8> { let mut buf = vec![0u8; size]; let n = unsafe { libc::pread(fd, buf.as_mut_ptr() as *mut libc::c_void, size, 0) }; buf.truncate(std::cmp::max(n, 0) as usize); buf };
+            // Read-only.
+            ctx.checks += 1;
+            match guard(|| MemoryMap::new(&path, MappingMode::ReadOnly).map(|m| { let s: &[u64] = m.as_ref(); s.iter().flat_map(|w| w.to_le_bytes()).collect::<Vec<u8>>() })) {
+                Ok(Ok(bytes)) => { if bytes != content { ctx.violation("map.sealed.read_only.content", format!("read-only map of a {}-byte memory file (seals: {}) differs from its content", size, label)); } ctx.count("sealed.read_only_mapped", 1); },
+                Ok(Err(_)) => ctx.count("sealed.read_only_refused", 1),
+                Err(p) => ctx.violation("map.sealed.read_only!panic", format!("MemoryMap::new(read-only) panicked on a {}-byte memory file (seals: {}): {}", size, label, p)),
+            }
+            // Mutable.
+            ctx.checks += 1;
+            let words = size / 8;
+            let outcome = guard(|| match MemoryMap::new(&path, MappingMode::Mutable) {
+                Err(e) => Err(e.to_string()),
+                Ok(mut m) => {
+                    let before: Vec<u64> = { let s: &[u64] = m.as_ref(); s.to_vec() };
+                    unsafe { let s = m.as_mut_slice(); for i in 0..std::cmp::min(words, s.len()) { s[i] = (i as u64).wrapping_mul(0x9E37_79B9_7F4A_7C15) ^ 0x7777; } }
+                    drop(m);
+                    Ok(before)
+                },
+            });
+            match outcome {
+                Ok(Err(_)) => ctx.count("sealed.mutable_refused", 1),
+                Ok(Ok(before)) => {
+                    ctx.count("sealed.mutable_mapped", 1);
+                    let expect: Vec<u8> = (0..words).flat_map(|i| ((i as u64).wrapping_mul(0x9E37_79B9_7F4A_7C15) ^ 0x7777).to_le_bytes()).collect();
+                    let now = read_back(fd);
+                    if before.iter().flat_map(|w| w.to_le_bytes()).collect::<Vec<u8>>() != content { ctx.violation("map.sealed.mutable.content", format!("mutable map of a {}-byte memory file (seals: {}) differs from its content", size, label)); }
+                    if now != expect { ctx.violation("map.sealed.writes_lost", format!("MemoryMap::new(mutable) returned a map for a {}-byte memory file sealed against writing (seals: {}), but what was written through it is not in the file after drop ({} of {} bytes differ)", size, label, now.iter().zip(expect.iter()).filter(|(a, b)| a != b).count(), size)); }
+                },
+                Err(p) => ctx.violation("map.sealed.mutable!panic", format!("MemoryMap::new(mutable) panicked on a {}-byte memory file (seals: {}): {}", size, label, p)),
+            }
+            unsafe { libc::close(fd); }
+        }
+    }
+    ctx.case(hash64(&[8]), true);
+    ctx.case(hash64(&[9]), true);
+    ctx.sample(|| "sealed: memory files (memfd) unsealed / sealed against writing, mapped read-only and mutably through /proc/self/fd: refused, or the writes are in the file".to_string());
+}
+
+#[cfg(miri)]
+fn sealed(_: &mut Ctx) {}
